@@ -32,9 +32,25 @@ def r1(ctx):
     fc = callers.get('fetchChromosome', set())
     ok = {'__init__', 'getAllelesAt', 'has_location'} <= fc
     ctx.emit('C18-R1', ok, ALLELES, ms['fetchChromosome'], f'fetchChromosome is called from {sorted(fc)}', key='single-source')
+    # helpers that are themselves only reachable from fetchChromosome count as part of it (also the leftover definitions of helpers whose calls were
+    # written out into fetchChromosome by the canonicalisation)
+    inlined_into = {}
+    for c_, h_, k_ in (ctx.ix.module(ALLELES).inlined or []):
+        if c_:
+            inlined_into.setdefault(str(h_).split('.')[-1].split(':')[-1], set()).add(str(c_).split('.')[-1])
+    for h_, cs_ in inlined_into.items():
+        callers.setdefault(h_, set()).update(cs_)
+    inside = {'fetchChromosome'}
+    grew = True
+    while grew:
+        grew = False
+        for name in ms:
+            if name not in inside and callers.get(name) and callers[name] <= inside:
+                inside.add(name)
+                grew = True
     for m in ('read_cached', 'write_cache'):
         cs = callers.get(m, set())
-        ctx.emit('C18-R1', cs == {'fetchChromosome'}, ALLELES, ms[m], f'{m} is called only from {sorted(cs)}', key=f'cache-io-callers:{m}')
+        ctx.emit('C18-R1', bool(cs) and cs <= inside and m not in callers.get('__init__', set()), ALLELES, ms[m], f'{m} is called only from {sorted(cs)} (within fetchChromosome)', key=f'cache-io-callers:{m}')
     # lazy lookups: fetchChromosome(self.vcffile, chrom, clear=True) runs iff lazy loading is on and the contig is not loaded - decided on the
     # paths of the function for the four combinations, whatever the shape of the guard
     import itertools
@@ -488,6 +504,9 @@ def r5(ctx):
             if isinstance(b_, list) and any(x is sloops_[0] for x in b_):
                 blk = b_
         region = blk[[i for i, x in enumerate(blk) if x is sloops_[0]][0] + 1:] if blk else [dec[0]]
+        # further collecting loops (a second pass over the genotype calls gathered by the first) are summarised by the case variables as well
+        while region and isinstance(region[0], ast.For) and not any(x is dec[0] for x in ast.walk(region[0])):
+            region = region[1:]
         problems = []
         ncase = 0
         for mono, nb, multi, sel, mism in itertools.product((True, False), (0, 1, 2), (True, False), (True, False), (True, False)):
@@ -499,6 +518,11 @@ def r5(ctx):
                 if t == 'len(bases_to_alleles)':
                     return nb
                 if t == 'monomorphic':
+                    return mono
+                # "some considered allele is missing" computed after the loops: any(<allele> is None for ..)
+                if isinstance(e, ast.Call) and isinstance(e.func, ast.Name) and e.func.id == 'any' and len(e.args) == 1 and isinstance(e.args[0], (ast.GeneratorExp, ast.ListComp)) \
+                        and isinstance(e.args[0].elt, ast.Compare) and len(e.args[0].elt.ops) == 1 and isinstance(e.args[0].elt.ops[0], ast.Is) \
+                        and isinstance(e.args[0].elt.comparators[0], ast.Constant) and e.args[0].elt.comparators[0].value is None:
                     return mono
                 return base_at(e)
             rs = explore(region, at, env0={'bad': multi, 'used': nb > 0})     # `used`: a base was registered, i.e. the mapping is non-empty
